@@ -85,6 +85,13 @@ func c10Allowed(c *core.Ctx) {
 			})
 			c.Check(ok, "checkListenerAllowedKind", c.Pos(fn.Pos()), "allowed iff the list is empty or an element has (group nil or gateway group) and the route's kind", diff)
 			// the deny return is after the loop
+			nDeny := 0
+			for _, r := range core.Returns(fn) {
+				if errClass(r) == "deny" {
+					nDeny++
+				}
+			}
+			c.Check(nDeny > 0, "checkListenerAllowedKind denies when no element admits", c.Pos(fn.Pos()), "", "no error return: a route of a kind the listener does not list is admitted")
 			for _, r := range core.Returns(fn) {
 				if errClass(r) == "deny" {
 					k := core.Key(core.Results(r)[0])
